@@ -28,7 +28,17 @@ Inductive stmt :=
 | SIgnore (b : bool)                                 (* runtime.ignore_errors(b) *)
 | SIteLazy (d cnd : nat) (tb : list stmt) (tr : nat) (fb : list stmt) (fr : nat)
                                                      (* if_then_else(cond, lambda: tb; regs[tr], lambda: fb; regs[fr]) *)
-| SProbe.                                            (* harness probe: (guard is None, guard.value, _ignore_errors) *)
+| SProbe                                             (* harness probe: (guard is None, guard.value, _ignore_errors) *)
+(* ---- pysnark.branching block API on a BranchingValues object `_` (variables are named by numbers) ---- *)
+| SBSet (nm : nat) (src : nat)                       (* _.nm = regs[src] *)
+| SBGet (d : nat) (nm : nat)                         (* regs[d] = _.nm *)
+| SOIf (cnd : nat) (thenb : list stmt) (elifs : list (list stmt * nat * list stmt)) (elseb : option (list stmt))
+      (* if _if(c): thenb;  if _elif(lambda: <condb>; regs[cr]): body ...;  if _else(): elseb;  _endif() *)
+| SOWhile (condb : list stmt) (cr : nat) (iters : nat) (body : list stmt)
+      (* k = 0;  while _while(<condb>; regs[cr]) and k < iters: body; k += 1;   _endwhile() *)
+| SBreakIf (cnd : nat)                               (* _breakif(c) *)
+| SOFor (ix : nat) (start : Z) (stop : nat) (maxv : Z) (check : bool) (body : list stmt).
+      (* for i in _range(start, regs[stop], max=maxv, checkstopmax=check): regs[ix] = i; body;   _endfor() *)
 
 Section WithP.
 Context {p : Z}.
@@ -197,24 +207,222 @@ Fixpoint gen_stmt (st : stmt) (r : regs) {struct st} : G regs :=
       | PInt _ => static_raise NotImplementedError
       | _ => static_raise RuntimeError
       end
+  | SBSet _ _ | SBGet _ _ | SOIf _ _ _ _ | SOWhile _ _ _ _ | SBreakIf _ | SOFor _ _ _ _ _ _ => static_raise ModelError   (* block API only at statement level *)
   | SProbe => s <- get ;;
       emitc (COut 10 (match guard s with Some g => sval g | None => VConst (-1) end) []) ;;;
       emitc (COut 11 (VB2Z (ignore s)) []) ;;; ret r
   end.
-(* top level: level-true statements (ignore_errors, block API) and everything else lifted *)
-Definition gen_top (st : stmt) (r : regs) : G1 regs :=
-  match st with
-  | SIgnore b => s <- get ;; set_globals (guard s) (if b then BTrue else BFalse) (one s) ;;; ret r
-  | _ => lift (gen_stmt st r)
+(* ---------------- pysnark.branching: BranchingValues, BranchContext, IfContext, WhileContext, ObliviousIterator ---------------- *)
+Definition bdict := list (nat * pyval).          (* a Python dict keyed by variable name, in insertion order *)
+Fixpoint dget (d : bdict) (k : nat) : option pyval :=
+  match d with [] => None | (j, v) :: d' => if Nat.eqb k j then Some v else dget d' k end.
+Fixpoint dset (d : bdict) (k : nat) (v : pyval) : bdict :=      (* assignment keeps the position of an existing key *)
+  match d with [] => [(k, v)] | (j, w) :: d' => if Nat.eqb k j then (j, v) :: d' else (j, w) :: dset d' k v end.
+Definition ddel (d : bdict) (k : nat) : bdict := filter (fun jv => negb (Nat.eqb k (fst jv))) d.
+Definition dmem (d : bdict) (k : nat) : bool := match dget d k with Some _ => true | None => false end.
+(* copy.deepcopy: LinComb.__deepcopy__ returns self; wrappers are re-created around the same LinComb *)
+Fixpoint deepcopy (v : pyval) : pyval :=
+  match v with
+  | PBool _ x => PBool 0 x | PFxp _ x => PFxp 0 x
+  | PList l => PList (map deepcopy l) | PTuple l => PTuple (map deepcopy l)
+  | _ => v
   end.
-Fixpoint gen_stmts (pr : list stmt) (r : regs) : G1 regs :=
-  match pr with [] => ret r | s1 :: pr' => r1 <- gen_top s1 r ;; gen_stmts pr' r1 end.
+Inductive ctxkind := KIf | KWhile.
+Record bctx := { bk : ctxkind; bcond : pyval; bbak : bdict; borig : Sym.gtriple p; bnodef : option bdict; bicond : option pyval }.
+Record bst := { bregs : regs; bvals : bdict; bstack : list bctx }.
+Definition with_regs (b : bst) (r : regs) : bst := {| bregs := r; bvals := bvals b; bstack := bstack b |}.
+Definition with_vals (b : bst) (d : bdict) : bst := {| bregs := bregs b; bvals := d; bstack := bstack b |}.
+Definition with_stack (b : bst) (st : list bctx) : bst := {| bregs := bregs b; bvals := bvals b; bstack := st |}.
+
+(* runtime.add_guard as called by the block API (LinCombBool is unwrapped; ints 0/1 are handled statically) *)
+Definition add_guard_v (cnd : pyval) : G1 (Sym.gtriple p) :=
+  match cnd with
+  | PLC g | PBool _ g => add_guard c g
+  | PInt k => if k =? 0 then static_raise RuntimeError else if k =? 1 then s <- get ;; ret (cur_triple s) else static_raise RuntimeError
+  | _ => static_raise TypeError
+  end.
+(* branching._not *)
+Definition bnot_v (cnd : pyval) : G1 pyval :=
+  match cnd with PBool _ b => lift (mkbool (bnot b)) | _ => lift (op2 OSub (PInt 1) cnd) end.
+(* the selected object is stored in the variable dict: it has an identity from then on *)
+Definition ite1 (cnd t f : pyval) : G1 pyval := v <- lift (if_then_else c op2 cnd t f) ;; lift (name_val v).
+
+(* BranchContext.enter *)
+Definition ctx_enter (k : ctxkind) (vals : bdict) (cnd : pyval) (nodef : option bdict) (icond : option pyval) : G1 bctx :=
+  let bak := map (fun jv => (fst jv, deepcopy (snd jv))) vals in
+  orig <- add_guard_v cnd ;;
+  ret {| bk := k; bcond := cnd; bbak := bak; borig := orig; bnodef := nodef; bicond := icond |}.
+(* BranchContext.exit (+ the WhileContext check); returns the new variable dict and the new nodefvals *)
+Fixpoint merge_nodef (cnd : pyval) (vals : bdict) (nodef : bdict) : G1 bdict :=
+  match nodef with
+  | [] => ret []
+  | (nm, old) :: rest =>
+      match dget vals nm with
+      | None => static_raise RuntimeError                  (* branch did not set value *)
+      | Some cur => v <- ite1 cnd cur old ;; r <- merge_nodef cnd vals rest ;; ret ((nm, v) :: r)
+      end
+  end.
+Fixpoint merge_bak (cnd : pyval) (bak : bdict) (todo : bdict) (acc : bdict) : G1 bdict :=
+  match todo with
+  | [] => ret acc
+  | (nm, cur) :: rest =>
+      match dget bak nm with
+      | None => static_raise RuntimeError                  (* branch set spurious value *)
+      | Some old => v <- ite1 cnd cur old ;; merge_bak cnd bak rest (dset acc nm v)
+      end
+  end.
+Definition ctx_exit (cx : bctx) (vals : bdict) : G1 (bdict * bdict) :=
+  restore_guard (borig cx) ;;;
+  nodef <- match bnodef cx with
+           | None => ret (filter (fun jv => negb (dmem (bbak cx) (fst jv))) vals)
+           | Some nd => merge_nodef (bcond cx) vals nd
+           end ;;
+  let vals1 := fold_left (fun d jv => ddel d (fst jv)) nodef vals in
+  vals2 <- merge_bak (bcond cx) (bbak cx) vals1 vals1 ;;
+  match bk cx with
+  | KWhile => match nodef with [] => ret (vals2, nodef) | _ => static_raise RuntimeError end   (* conditional write to undefined variables *)
+  | KIf => ret (vals2, nodef)
+  end.
+(* WhileContext._while(nwcond) : exit(); enter(self.cond & nwcond) *)
+Definition ctx_while (cx : bctx) (vals : bdict) (nwcond : pyval) : G1 (bctx * bdict) :=
+  vn <- ctx_exit cx vals ;;
+  cc <- lift (op2 OAnd (bcond cx) nwcond) ;;
+  cx' <- ctx_enter KWhile (fst vn) cc (Some (snd vn)) None ;;
+  ret (cx', fst vn).
+
+Definition name_store (b : bst) (d : nat) (v : pyval) : G1 bst :=
+  v' <- lift (name_val v) ;; lift (emit_out v') ;;; ret (with_regs b (rset (bregs b) d v')).
+
+Fixpoint gen_top (st : stmt) (b : bst) {struct st} : G1 bst :=
+  let blk := (fix go (l : list stmt) (b0 : bst) : G1 bst :=
+                match l with [] => ret b0 | s1 :: l' => b1 <- gen_top s1 b0 ;; go l' b1 end) in
+  match st with
+  | SIgnore f => s <- get ;; set_globals (guard s) (if f then BTrue else BFalse) (one s) ;;; ret b
+  | SBSet nm src => v <- lift (name_val (rget (bregs b) src)) ;; ret (with_vals (with_regs b (rset (bregs b) src v)) (dset (bvals b) nm v))
+  | SBGet d nm => match dget (bvals b) nm with Some v => name_store b d v | None => static_raise AttributeError end   (* KeyError *)
+  | SBreakIf cn =>
+      match bstack b with
+      | cx :: rest => nc <- bnot_v (rget (bregs b) cn) ;; r <- ctx_while cx (bvals b) nc ;;
+                      ret (with_stack (with_vals b (snd r)) (fst r :: rest))
+      | [] => static_raise IndexError
+      end
+  | SOIf cn thenb elifs elseb =>
+      let cnd := rget (bregs b) cn in
+      ic <- bnot_v cnd ;;                                                   (* IfContext.__init__: before enter *)
+      cx <- ctx_enter KIf (bvals b) cnd None (Some ic) ;;
+      b1 <- blk thenb (with_stack b (cx :: bstack b)) ;;
+      (* elif chain *)
+      b2 <- (fix chain (es : list (list stmt * nat * list stmt)) (b0 : bst) : G1 bst :=
+               match es with
+               | [] => ret b0
+               | (condb, cr, body) :: es' =>
+                   match bstack b0 with
+                   | cx0 :: rest =>
+                       vn <- ctx_exit cx0 (bvals b0) ;;
+                       bc <- blk condb (with_stack (with_vals b0 (fst vn)) rest) ;;       (* nwcond() : evaluated outside the branch guard *)
+                       let nw := rget (bregs bc) cr in
+                       match bicond cx0 with
+                       | Some ic0 =>
+                           nn <- bnot_v nw ;; nwic <- lift (op2 OAnd ic0 nn) ;;
+                           en <- lift (op2 OAnd ic0 nw) ;;
+                           cx1 <- ctx_enter KIf (bvals bc) en (Some (snd vn)) (Some nwic) ;;
+                           bb <- blk body (with_stack bc (cx1 :: bstack bc)) ;;
+                           chain es' bb
+                       | None => static_raise TypeError                          (* None & x *)
+                       end
+                   | [] => static_raise IndexError
+                   end
+               end) elifs b1 ;;
+      b3 <- match elseb with
+            | None => ret b2
+            | Some body =>
+                match bstack b2 with
+                | cx0 :: rest =>
+                    vn <- ctx_exit cx0 (bvals b2) ;;
+                    match bicond cx0 with
+                    | Some ic0 =>
+                        cx1 <- ctx_enter KIf (fst vn) ic0 (Some (snd vn)) None ;;
+                        blk body (with_stack (with_vals b2 (fst vn)) (cx1 :: rest))
+                    | None => static_raise TypeError
+                    end
+                | [] => static_raise IndexError
+                end
+            end ;;
+      (* _endif: pop().end() *)
+      match bstack b3 with
+      | cx0 :: rest =>
+          vn <- ctx_exit cx0 (bvals b3) ;;
+          match snd vn, bicond cx0 with
+          | _ :: _, Some _ => static_raise RuntimeError                         (* if branch set values and no else branch *)
+          | nd, _ => ret (with_stack (with_vals b3 (fold_left (fun d jv => dset d (fst jv) (snd jv)) nd (fst vn))) rest)
+          end
+      | [] => static_raise IndexError
+      end
+  | SOWhile condb cr iters body =>
+      (* first evaluation of the condition and first _while call: a new WhileContext *)
+      bc <- blk condb b ;;
+      cx <- ctx_enter KWhile (bvals bc) (rget (bregs bc) cr) None None ;;
+      bl <- (fix loop (k : nat) (b0 : bst) : G1 bst :=
+               match k with
+               | O => ret b0
+               | S k' =>
+                   b1 <- blk body b0 ;;
+                   b2 <- blk condb b1 ;;                                         (* evaluated while the previous guard is active *)
+                   match bstack b2 with
+                   | cx0 :: rest => r <- ctx_while cx0 (bvals b2) (rget (bregs b2) cr) ;;
+                                    loop k' (with_stack (with_vals b2 (snd r)) (fst r :: rest))
+                   | [] => static_raise IndexError
+                   end
+               end) iters (with_stack bc (cx :: bstack bc)) ;;
+      match bstack bl with
+      | cx0 :: rest => vn <- ctx_exit cx0 (bvals bl) ;; ret (with_stack (with_vals bl (fst vn)) rest)
+      | [] => static_raise IndexError
+      end
+  | SOFor ix start stop maxv check body =>
+      match rget (bregs b) stop with
+      | PLC sx =>
+          let ne_stop (i : Z) : G1 pyval := lift (op2 ONe (PInt i) (PLC sx)) in      (* self.ix != self.stop *)
+          c0 <- ne_stop start ;;
+          cx <- ctx_enter KWhile (bvals b) c0 None None ;;
+          (* iterations start .. ; the number of further iterations is public: max - start - 1 (at least the first one runs) *)
+          bl <- (fix loop (k : nat) (i : Z) (b0 : bst) : G1 bst :=
+                   b1 <- name_store b0 ix (PInt i) ;;
+                   b2 <- blk body b1 ;;
+                   match k with
+                   | O => ret b2
+                   | S k' =>
+                       cj <- ne_stop (i + 1) ;;
+                       match bstack b2 with
+                       | cx0 :: rest => r <- ctx_while cx0 (bvals b2) cj ;;
+                                        loop k' (i + 1) (with_stack (with_vals b2 (snd r)) (fst r :: rest))
+                       | [] => static_raise IndexError
+                       end
+                   end) (Z.to_nat (maxv - start - 1)) start (with_stack b (cx :: bstack b)) ;;
+          let last := start + Z.max 1 (maxv - start) in
+          (if check then
+             match bstack bl with
+             | cx0 :: _ => cl <- ne_stop last ;; a <- lift (op2 OAnd (bcond cx0) cl) ;;
+                           match a with PBool _ x => lift (assert_zero x) | _ => static_raise AttributeError end
+             | [] => static_raise IndexError
+             end
+           else ret tt) ;;;
+          match bstack bl with
+          | cx0 :: rest => vn <- ctx_exit cx0 (bvals bl) ;; ret (with_stack (with_vals bl (fst vn)) rest)
+          | [] => static_raise IndexError
+          end
+      | _ => static_raise ModelError           (* public stop: native range semantics, not modelled *)
+      end
+  | _ => r <- lift (gen_stmt st (bregs b)) ;; ret (with_regs b r)
+  end.
+Fixpoint gen_stmts (pr : list stmt) (b : bst) : G1 bst :=
+  match pr with [] => ret b | s1 :: pr' => b1 <- gen_top s1 b ;; gen_stmts pr' b1 end.
+Definition bst0 : bst := {| bregs := []; bvals := []; bstack := [] |}.
 
 Definition init_gst : gst :=
   {| npub := 0; npriv := 0; noid := 10; guard := None; ignore := BIgn0;
      one := ONE_SAFE; unw := None |}.
 Definition gen_prog (pr : list stmt) : list cmd :=
-  match run (gen_stmts pr []) init_gst with
+  match run (gen_stmts pr bst0) init_gst with
   | (inl _, s, cs) => cs ++ out_globals s
   | (inr _, _, cs) => cs
   end.
